@@ -325,3 +325,8 @@ CHECKS["C08"]["text"] += (" FileStore::create_snapshot is under contract: ONE Ne
                           "(finding S26: no truncation, the tail of a longer leftover file was loaded into the follower's state machine; repaired by 80bfefa); the install stand-in has a leftover-file probe.")
 CHECKS["C08"]["note"] += " A-REPLYSHAPE: the snapshot manager answers NewSnapshotForLoad with NewSnapshotForLoad(path, id) or an error (its handler is not under contract)."
 CHECKS["C01"]["text"] += " FileStore::do_log_compaction (storage boundary of a compaction) is under contract."
+
+# ---- fourth build round
+CHECKS["C09"]["text"] += (" Fourth build round: ConfigActor::get_config_info_by_keys (the read-by-keys the MCP / console layers use) is under contract, no longer an assumed stub: the answer is exactly the stored rows of the named keys, "
+                          "in the order asked, unstored keys skipped, each row carrying the key, the stored content, the stored md5 and the stored description; the count is the number of rows (3 self-test mutations: md5 := content, "
+                          "group / data id swapped, lookup under a permuted key).")
